@@ -15,6 +15,11 @@ import os
 import time
 from .. import core
 
+LEVEL = "proof"
+EXPLANATION = ("Coq theorems over Loops/Model.v (split, tree spawn, spawner, micro-step queue-loop cursors for every schedule) + "
+               "differential correspondence of that model with the working tree's qloop.c: interposed-spawn grid, free-running loops "
+               "of every flavour on several configurations, baton-scheduled replay of the four get_iterations functions")
+
 BAL = ["plain", "simple", "sv", "dc", "aligned", "sinc"]
 LOOP = ["plain", "simple_sinc", "sv", "dc", "aligned", "sinc"]
 QT = ["chunk", "guided", "factored", "timed"]
@@ -46,7 +51,7 @@ def run_units(exe, units, env, timeout=900, transient=None):
                 status = "HANG" if ("TIMEOUT" in lines[p:] or rc == -9) else "CRASH rc=%s" % rc
                 out[j] = (status, chunk)
                 for attempt in range(1):
-                    rc2, l2, _ = core.run_lines(exe, units[j] + ["X"], timeout=120, env=env)
+                    rc2, l2, _ = core.run_lines(exe, units[j] + ["X"], timeout=int(env.get("C12_ALARM", 15)) * 2 + 60, env=env)
                     if len(l2) == 1 + need and "TIMEOUT" not in l2:
                         out[j] = ("OK", l2[1:])
                         if transient is not None:
@@ -340,14 +345,20 @@ def run(ctx):
         if quick and nwk > 1:        # several workers per shepherd are slow under machine load: half of the cases in the quick tier
             m4 = [c for i, c in enumerate(m4) if i % 2 == (ctx.seed % 2)]
         batches.append(("M4", (ns, nwk), m4))
-    batches.append(("M3", (1, 1), gen_m3(rng.fork(), 400 if quick else 3000)))
+    batches.append(("M3", (1, 1), gen_m3(rng.fork(), 400 if quick else 8000)))
     phase = {"coq+build": round(time.time() - ctx.t0, 1)}
+    # per-case watchdog scaled to the machine load: 15 s when a small balance loop takes the usual ~3 ms, up to 120 s
+    t1 = time.time()
+    run_units(exe, [["B dc 0 8 0 1"]] * 100, core.qenv(2, 2, stack=65536, C12_ALARM=120))
+    per_case = (time.time() - t1) / 100
+    wd = int(min(120, max(15, 2000 * per_case)))
+    phase["calibration"] = "%.1f ms per small loop on 2x2 -> watchdog %d s" % (per_case * 1000, wd)
     for (name, (ns, nwk), cases) in batches:
         tb = time.time()
         if len(ofail) >= 6:
             ctx.notes.append("stopped before batch %s %dx%d: %d failing inputs already found" % (name, ns, nwk, len(ofail)))
             break
-        hdr, outs = run_units(exe, [c.impl for c in cases], core.qenv(ns, nwk, stack=65536), transient=transient)
+        hdr, outs = run_units(exe, [c.impl for c in cases], core.qenv(ns, nwk, stack=65536, C12_ALARM=wd), transient=transient)
         _, hs, hw = hdr.split()
         if int(hs) != ns or int(hw) != ns * nwk:
             raise core.BuildError("runtime reports %s shepherds / %s workers, asked %dx%d" % (hs, hw, ns, nwk))
@@ -404,7 +415,7 @@ def replay(ctx, path):
     """re-run the failing input of a replay file on the real code (and the model) and print both"""
     j = json.load(open(path))
     r = j.get("replay", {})
-    case = r.get("failing_input") or (r.get("first_mismatch") or [None, None])[1]
+    case = r if "replay_cmds" in r else (r.get("failing_input") or (r.get("first_mismatch") or [None, None])[1])
     print("# %s: %s" % (j.get("signature"), j.get("what")))
     if not case or "replay_cmds" not in case:
         print("# no single input recorded (%s): running the whole check" % r.get("theorem_or_correspondence"))
